@@ -60,7 +60,8 @@ def c18_universes():
 # state-graph comparison with refusals (small pools: every reachable state x every call is walked on real objects)
 WG = {
     "wg-c18p": consts(MaxP=2, PType=1, CheckFits=False, AllowReject=True, PoolS="C18IriS", PoolP="C18IriS", PoolO="C18IriS"),
-    "wg-c18pq": consts(MaxP=3, PType=2, CheckFits=False, AllowReject=True, PoolS="C18IriS", PoolP="PfxP", PoolO="C18IriS", PoolG="C18IriS"),
+    "wg-c18pq": consts(MaxP=2, PType=2, CheckFits=False, AllowReject=True, PoolS="C18IriQ", PoolP="QdP", PoolO="C18IriQ", PoolG="C18IriG3"),
+    "wg-c18g": consts(MaxP=1, PType=3, CheckFits=False, AllowReject=True, PoolS="C18IriQ", PoolP="QdP", PoolO="C18IriQ", PoolG="C18IriG3"),
     "wg-c18d": consts(MaxD=1, PType=1, CheckFits=False, AllowReject=True, PoolS="C18DtS", PoolP="C18DtS", PoolO="C18DtS"),
 }
 
